@@ -33,10 +33,11 @@ def load_unit(name):
     return importlib.import_module('units.' + name)
 
 
-def build(mod, canary=False, mutate=None):
+def build(mod, canary=False, mutate=None, stub=None):
     u = UnitBuilder(mod.NAME, mod.PROPS)
     u.canary_false = canary
     u.mutate = mutate
+    u.stub_items = dict(stub or {})
     mod.build(u)
     text = u.render()
     lm = LineMap(text, mod.PROPS)
@@ -106,22 +107,39 @@ class UnitRun:
         self.verified = 0
         self.path = ''
         self.imports = []
+        self.stubbed = {}
+        self.item_hashes = {}
 
 
 def run_unit(mod, tier='quick', do_canary=True, mutate=None, tag=''):
+    """Build + verify one unit.  An item that cannot be brought under contract on this tree (lost anchor, a
+    construct Verus rejects) is replaced by its contract-only stub and the unit is verified again, so the
+    damage stays with that item (its obligations are undecided), not with the whole unit."""
+    stub = {}
+    ur = None
+    for attempt in range(5):
+        ur, retry = _run_unit_once(mod, tier, do_canary, mutate, tag, stub)
+        if not retry:
+            break
+        stub.update(retry)
+    return ur
+
+
+def _run_unit_once(mod, tier, do_canary, mutate, tag, stub):
     ur = UnitRun(mod)
     t0 = time.time()
     os.makedirs(os.path.join(OUT, 'gen'), exist_ok=True)
     try:
-        u, text, lm = build(mod, mutate=mutate)
+        u, text, lm = build(mod, mutate=mutate, stub=stub)
     except LostAnchor as e:
         ur.status = 'undecided'
         ur.reason = 'lost anchor: %s' % e
-        return ur
+        return ur, None
     except Exception as e:
         ur.status = 'undecided'
         ur.reason = 'extraction error: %s' % (traceback.format_exc()[-600:])
-        return ur
+        return ur, None
+    stubbed = dict(u.stub_items)
     path = os.path.join(OUT, 'gen', '%s%s.rs' % (mod.NAME, tag))
     open(path, 'w').write(text)
     ur.path = path
@@ -129,28 +147,32 @@ def run_unit(mod, tier='quick', do_canary=True, mutate=None, tag=''):
     ur.imports = u.imports
     ur.rewrites = u.rewrites
     ur.assumed = u.assumed
+    ur.stubbed = stubbed
     ur.extracted_hash = u.extracted_hash()
+    ur.item_hashes = u.item_hashes()
     allowed, inside = scan_assumptions(text, lm)
     ur.allowed_assumptions = allowed
     if inside:
         ur.status = 'undecided'
         ur.reason = 'assumption outside prelude: %s' % inside[:3]
-        return ur
+        return ur, None
     # static obligations
     for oid, o in lm.obligations.items():
         ur.obligations[oid] = dict(tags=o['tags'], status='undecided', item=o.get('item'))
-    contracted = [it['key'] for it in u.items]
+    contracted = [it['key'] for it in u.items if it['key'] not in stubbed]
     for key in contracted:
         ur.obligations['%s.safety' % key] = dict(tags=lm.item_tags.get(key, mod.PROPS), status='undecided', item=key)
+    for key, why in stubbed.items():
+        ur.obligations['%s.safety' % key] = dict(tags=getattr(u, 'stub_tags', {}).get(key, mod.PROPS), status='undecided', item=key, reason=why)
     if not ur.obligations:
         ur.status = 'undecided'
         ur.reason = 'zero obligations generated'
-        return ur
-    rlimit = getattr(mod, 'RLIMIT', 30)
+        return ur, None
+    rlimit = getattr(mod, 'RLIMIT', 60)
     canary_future = None
     if do_canary:
         def _canary():
-            u2, text2, lm2 = build(mod, canary=True)
+            u2, text2, lm2 = build(mod, canary=True, stub=stub)
             p2 = os.path.join(OUT, 'gen', '%s%s_canary.rs' % (mod.NAME, tag))
             open(p2, 'w').write(text2)
             return lm2, verus.run(p2, rlimit=rlimit, multiple_errors=0)
@@ -165,11 +187,33 @@ def run_unit(mod, tier='quick', do_canary=True, mutate=None, tag=''):
     ur.verified = res.get('verified', 0)
     ur.per_function = {k: v for k, v in res['functions'].items()}
     if res['front_end_error']:
+        # can the error be pinned on items?  then stub them and verify the rest
+        blame = {}
+        unpinned = False
+        for d in res['other_errors']:
+            keys = set()
+            for sp in d['spans']:
+                region = lm.at(sp['line_start'])[0]
+                if region[0] == 'item':
+                    keys.add(region[1])
+            if keys:
+                for k in keys:
+                    blame[k] = 'verus front end: %s' % d['message'][:200]
+            else:
+                unpinned = True
+        if canary_future is not None:
+            try:
+                canary_future.result()
+            except Exception:
+                pass
+        new = {k: v for k, v in blame.items() if k not in stubbed and any(it['key'] == k for it in u.items)}
+        if new and not unpinned:
+            return ur, new
         ur.status = 'undecided'
         msgs = [d['message'] for d in res['other_errors'][:3]] or [res['raw_stderr_tail'][-400:]]
         ur.reason = 'verus front-end error: %s' % ' | '.join(msgs)
         ur.wall_s = round(time.time() - t0, 2)
-        return ur
+        return ur, None
     if res['resource_out']:
         ur.status = 'undecided'
         ur.reason = 'resource limit exceeded after retry with 4x rlimit'
@@ -190,7 +234,9 @@ def run_unit(mod, tier='quick', do_canary=True, mutate=None, tag=''):
     for oid, o in ur.obligations.items():
         if o['status'] == 'failed':
             continue
-        if o.get('item') and o['item'] in failed_items:
+        if o.get('item') and o['item'] in stubbed:
+            o['status'] = 'undecided'
+        elif o.get('item') and o['item'] in failed_items:
             o['status'] = 'undecided'
         elif oid.startswith('spec:') and failed_specs:
             o['status'] = 'discharged' if oid not in failed_specs else 'failed'
@@ -223,7 +269,7 @@ def run_unit(mod, tier='quick', do_canary=True, mutate=None, tag=''):
             ur.status = 'undecided'
             ur.reason = 'canary lost anchor: %s' % e
     ur.wall_s = round(time.time() - t0, 2)
-    return ur
+    return ur, None
 
 
 def load_json(path, default):
@@ -363,6 +409,9 @@ def check_property(pid, tier='quick', seed=0):
     for r in runs:
         if r.status != 'ok':
             undecided.append('%s: %s' % (r.name, r.reason))
+        for key, why in getattr(r, 'stubbed', {}).items():
+            if pid in (r.obligations.get('%s.safety' % key, {}).get('tags') or []):
+                undecided.append('%s: %s could not be brought under contract on this tree (%s)' % (r.name, key, why))
         for oid, o in r.obligations.items():
             if pid in o['tags']:
                 if o.get('dynamic'):
@@ -383,6 +432,19 @@ def check_property(pid, tier='quick', seed=0):
             if b and b.get('extracted_hash') == r.extracted_hash:
                 undecided.append('%s: %s fails although the extracted text equals the reference tree (solver instability?)' % (r.name, f['obligation']))
                 continue
+            # verification is modular: an obligation of item K can only be affected by K's own text or by the data
+            # items (constants, type definitions) of the unit; if neither differs from the reference tree the failure
+            # is solver instability, not a finding
+            if b and b.get('items'):
+                bi = b['items']
+                data_changed = [k for k, v in r.item_hashes.items() if not v['fn'] and bi.get(k, {}).get('sha') != v['sha']]
+                own = f['item']
+                own_changed = own is None or bi.get(own, {}).get('sha') != r.item_hashes.get(own, {}).get('sha')
+                if own is None:
+                    own_changed = bool(data_changed)
+                if not own_changed and not data_changed:
+                    undecided.append('%s: %s fails although neither %s nor any data item differs from the reference tree (solver instability)' % (r.name, f['obligation'], own))
+                    continue
             violations.append((r, f))
     for l in kf_lines:
         print(l)
@@ -453,7 +515,7 @@ def rebaseline():
     runs = run_units(names, 'quick')
     out = {}
     for r in runs:
-        out[r.name] = dict(extracted_hash=r.extracted_hash, status=r.status, reason=r.reason,
+        out[r.name] = dict(extracted_hash=r.extracted_hash, items=r.item_hashes, status=r.status, reason=r.reason,
                            discharged=sorted(k for k, o in r.obligations.items() if o['status'] == 'discharged'),
                            not_discharged=sorted(k for k, o in r.obligations.items() if o['status'] != 'discharged'),
                            verus=verus.verus_version())
